@@ -202,6 +202,11 @@ ServeGeneral ==
                 <<"allow", R.pat, R.kind, "header", R.allowH, "node", R.allowN, "want", SetSeq(AllowSet(rt, R.pat))>>)
        /\ Check("C09", want.kind = R.kind => R.order = want.order, <<"order", Ev.method, R.pat, R.kind, R.order, want.order>>)
        /\ Check("C18", rt.cfg.trace => ("TRACE" \in ToSet(R.allowN) /\ (R.hasAllowH => "TRACE" \in ToSet(R.allowH))), <<"TRACE missing from an Allow set", R.pat, R.allowH, R.allowN>>)
+  \* C18, second half: without the option TRACE is an ordinary method - served exactly while it is registered, else 404 / 405
+  /\ Check("C18", (~rt.cfg.trace /\ Ev.method = "TRACE" /\ R.kind = "route") => (R.pat \in Live(rt) /\ "TRACE" \in MethodsOf(rt, R.pat)),
+           <<"TRACE served although it is not registered", Ev.path, R.pat>>)
+  /\ Check("C18", (~rt.cfg.trace /\ Ev.method = "TRACE" /\ R.kind \in {"route", "405"} /\ R.pat \in Live(rt)) => (want.kind = R.kind /\ want.h = R.h),
+           <<"TRACE as an ordinary method", Ev.path, R.pat, "want", want.kind, want.h, "got", R.kind, R.h>>)
   /\ Check("C09", R.kind = "404" => R.order = Reverse(rt.use), <<"order 404", R.order>>)
   \* C08, independent of the specification's table: whatever pattern SERVES a method also answers OPTIONS automatically,
   \* HEAD is served by the GET handler exactly when GET is served, and HEAD is never served on its own
